@@ -388,12 +388,22 @@ theorem end_any (hdr ihdr : Bytes) (dir : Dir) (s : Sess) (e : Entry) (es : List
       simp only [pure, Except.pure, DataSess.view]
       congr 1; omega
 
-/-- **T7 / C02: a range read returns exactly the entries inside the bounds** -/
-theorem readAll_range (hdr ihdr : Bytes) (dir : Dir) (s : Sess) (e : Entry) (es : List Entry)
+/-- what `RoughPos::new(..)?.refine(..)?` yields for a pair of bounds -/
+inductive SeekOutcome (p : Nat) (xs : List Entry) (want : List Entry) : R (Option Pos) → Prop where
+  | rangeError (c : String) (hw : want = []) : SeekOutcome p xs want (.error (.err ("InvalidRange/" ++ c)))
+  | nothing (hw : want = []) : SeekOutcome p xs want (.ok none)
+  | pos (ps : Pos) (hlt : ps.start < ps.stop)
+      (hread : ∀ {σ : Type} (cb : Option Bool) (proc : σ → Nat → Bytes → PRes σ) (st : σ),
+        readRegion p cb proc st (Spec.encode p xs) ps.start ps.stop ps.firstFull = foldProc proc st want)
+      (hlines : ∃ i j e, i < j ∧ j ≤ xs.length ∧ want = (xs.drop i).take (j - i) ∧ ps.stop = offA p xs j ∧
+        ((ps.start = offA p xs i) ∨ (Opens xs i e ∧ ps.start = offA p xs i + metaSize p))) :
+      SeekOutcome p xs want (.ok (some ps))
+
+/-- **T7: the seek is correct for every pair of bounds** -/
+theorem apiSeek_spec (hdr ihdr : Bytes) (dir : Dir) (s : Sess) (e : Entry) (es : List Entry)
     (hinv : SessInv hdr ihdr dir s (e :: es)) (sb eb : Bound) :
-    apiReadAll dir s sb eb = .ok (Spec.filterBounds (toSpecBound sb) (toSpecBound eb) (e :: es)) ∨
-    (Spec.filterBounds (toSpecBound sb) (toSpecBound eb) (e :: es) = [] ∧
-      ∃ c, apiReadAll dir s sb eb = .error (.err ("InvalidRange/" ++ c))) := by
+    SeekOutcome s.d.p (e :: es) (Spec.filterBounds (toSpecBound sb) (toSpecBound eb) (e :: es))
+      (apiSeek (mainRegion dir s) s.d sb eb) := by
   have hv := hinv.valid
   have hbnd := getLast_ge e es hv.1
   have hregion : mainRegion dir s = Spec.encode s.d.p (e :: es) := by
@@ -415,18 +425,18 @@ theorem readAll_range (hdr ihdr : Bytes) (dir : Dir) (s : Sess) (e : Entry) (es 
     apply List.filter_congr
     intro x hx
     rw [okStart_iff sb e.ts x.ts (hbnd x hx).1 (hv.2 x hx).1, okEnd_iff eb _ x.ts (hbnd x hx).2]
-  unfold apiReadAll apiSeek roughPos
+  unfold apiSeek roughPos
   rw [checkedStartTime_eq s.d.view _ _ hrange hfl sb, checkedEndTime_eq s.d.view _ _ hrange hfl eb]
   simp only [bind, Except.bind]
   cases hso : startOf sb e.ts with
   | none =>
-    right
-    refine ⟨by rw [hwant, hso]; simp, "StartAfterData", by simp [wrapErr]⟩
+    simp only [wrapErr]
+    exact .rangeError "StartAfterData" (by rw [hwant, hso]; simp)
   | some a =>
     simp only
     by_cases ha : a > ((e :: es).getLast (by simp)).ts
-    · right
-      refine ⟨?_, "StartAfterData", by simp [ha, wrapErr]⟩
+    · simp only [ha, if_true, wrapErr]
+      refine .rangeError "StartAfterData" ?_
       rw [hwant, hso, List.filter_eq_nil_iff]
       intro x hx
       have := (hbnd x hx).2
@@ -434,26 +444,25 @@ theorem readAll_range (hdr ihdr : Bytes) (dir : Dir) (s : Sess) (e : Entry) (es 
     · simp only [ha, if_false]
       cases heo : endOf eb ((e :: es).getLast (by simp)).ts with
       | none =>
-        right
-        refine ⟨by rw [hwant, heo]; simp, "StopBeforeData", by simp [wrapErr]⟩
+        simp only [wrapErr]
+        exact .rangeError "StopBeforeData" (by rw [hwant, heo]; simp)
       | some b =>
         simp only
         by_cases hb : b < e.ts
-        · right
-          refine ⟨?_, "StopBeforeData", by simp [hb, wrapErr]⟩
+        · simp only [hb, if_true, wrapErr]
+          refine .rangeError "StopBeforeData" ?_
           rw [hwant, heo, List.filter_eq_nil_iff]
           intro x hx
           have := (hbnd x hx).1
           simp; intro _; omega
         · simp only [hb, if_false]
           by_cases hab : a > b
-          · right
-            refine ⟨?_, "StartBeforeStop", by simp [hab, wrapErr]⟩
+          · simp only [hab, if_true, wrapErr]
+            refine .rangeError "StartBeforeStop" ?_
             rw [hwant, hso, heo, List.filter_eq_nil_iff]
             intro x hx
             simp; intro h; omega
           · simp only [hab, if_false]
-            left
             have hwant' : Spec.filterBounds (toSpecBound sb) (toSpecBound eb) (e :: es)
                 = (e :: es).filter (inRange a b) := by
               rw [hwant, hso, heo]; rfl
@@ -468,14 +477,266 @@ theorem readAll_range (hdr ihdr : Bytes) (dir : Dir) (s : Sess) (e : Entry) (es 
             obtain ⟨hempty, hread⟩ := read_between_ok s.d.p (e :: es) hv a b Bs Be sf hs2 he2
             by_cases hle : Be ≤ Bs
             · simp only [hle, if_true]
-              rw [hwant', hempty hle]
+              exact .nothing (by rw [hwant', hempty hle])
             · simp only [hle, if_false]
-              have hr := hread (by omega) s.cb collectProc {}
-              unfold dataReadAll
-              simp only
-              rw [hr, hwant']
-              have hsub : ((e :: es).filter (inRange a b)).Sublist (e :: es) := List.filter_sublist
-              obtain ⟨l, hl⟩ := fold_collect_init _ (sorted_sublist hsub hv.1)
-              simp [hl]
+              refine .pos _ (by simp; omega) ?_ ?_
+              · intro σ cb proc st
+                rw [hwant']
+                exact hread (by omega) cb proc st
+              · -- the boundaries, for the line count
+                obtain ⟨i, hile, hi1, hi2, hBs⟩ := hs2
+                obtain ⟨j, hjle, hj1, hj2, hBe⟩ := he2
+                have hfilter := filter_between (e :: es) hv.1 a b i j hi1 hi2 hj1 hj2
+                have hij : i < j := by
+                  rcases Nat.lt_or_ge i j with hij | hij
+                  · exact hij
+                  · exfalso
+                    have hmono := offA_mono s.d.p (e :: es) j i hij
+                    rcases hBs with ⟨rfl, _⟩ | ⟨e', hopen, rfl, _⟩ <;> omega
+                rcases hBs with ⟨rfl, _⟩ | ⟨e', hopen, rfl, _⟩
+                · exact ⟨i, j, e, hij, hjle, by rw [hwant']; exact hfilter, hBe, Or.inl rfl⟩
+                · exact ⟨i, j, e', hij, hjle, by rw [hwant']; exact hfilter, hBe, Or.inr ⟨hopen, rfl⟩⟩
+
+/-- **C02: a range read returns exactly the entries inside the bounds** (or, when there are
+none, an empty result or a range error) -/
+theorem readAll_range (hdr ihdr : Bytes) (dir : Dir) (s : Sess) (e : Entry) (es : List Entry)
+    (hinv : SessInv hdr ihdr dir s (e :: es)) (sb eb : Bound) :
+    apiReadAll dir s sb eb = .ok (Spec.filterBounds (toSpecBound sb) (toSpecBound eb) (e :: es)) ∨
+    (Spec.filterBounds (toSpecBound sb) (toSpecBound eb) (e :: es) = [] ∧
+      ∃ c, apiReadAll dir s sb eb = .error (.err ("InvalidRange/" ++ c))) := by
+  have hregion : mainRegion dir s = Spec.encode s.d.p (e :: es) := by
+    unfold mainRegion Store.region
+    rw [hinv.data.data, hinv.data.hdrLen]; simp
+  have hspec := apiSeek_spec hdr ihdr dir s e es hinv sb eb
+  unfold apiReadAll
+  simp only [bind, Except.bind, pure, Except.pure]
+  generalize hseek : apiSeek (mainRegion dir s) s.d sb eb = r at hspec
+  cases hspec with
+  | rangeError c hw => right; exact ⟨hw, c, rfl⟩
+  | nothing hw => left; simp [hw]
+  | pos ps hlt hread _ =>
+    left
+    simp only
+    unfold dataReadAll
+    rw [hregion, hread s.cb collectProc {}]
+    have hsub : (Spec.filterBounds (toSpecBound sb) (toSpecBound eb) (e :: es)).Sublist (e :: es) := by
+      unfold Spec.filterBounds; exact List.filter_sublist
+    obtain ⟨l, hl⟩ := fold_collect_init _ (sorted_sublist hsub hinv.valid.1)
+    simp [hl]
+
+/-- **C13: `read_first_n` over any range returns the first `min n k` entries of what `read_all` returns** -/
+theorem readFirstN_range (hdr ihdr : Bytes) (dir : Dir) (s : Sess) (e : Entry) (es : List Entry)
+    (hinv : SessInv hdr ihdr dir s (e :: es)) (n : Nat) (hn : 1 ≤ n) (sb eb : Bound) :
+    apiReadFirstN dir s n sb eb = .ok ((Spec.filterBounds (toSpecBound sb) (toSpecBound eb) (e :: es)).take n) ∨
+    (Spec.filterBounds (toSpecBound sb) (toSpecBound eb) (e :: es) = [] ∧
+      ∃ c, apiReadFirstN dir s n sb eb = .error (.err ("InvalidRange/" ++ c))) := by
+  have hregion : mainRegion dir s = Spec.encode s.d.p (e :: es) := by
+    unfold mainRegion Store.region
+    rw [hinv.data.data, hinv.data.hdrLen]; simp
+  have hspec := apiSeek_spec hdr ihdr dir s e es hinv sb eb
+  unfold apiReadFirstN
+  have hn0 : ¬ n = 0 := by omega
+  simp only [hn0, if_false, bind, Except.bind, pure, Except.pure]
+  generalize hseek : apiSeek (mainRegion dir s) s.d sb eb = r at hspec
+  cases hspec with
+  | rangeError c hw => right; exact ⟨hw, c, rfl⟩
+  | nothing hw => left; simp [hw]
+  | pos ps hlt hread _ =>
+    left
+    simp only
+    unfold dataReadFirstN
+    rw [hregion, hread s.cb firstNProc { n := n }]
+    have h := fold_firstN_out n hn (Spec.filterBounds (toSpecBound sb) (toSpecBound eb) (e :: es))
+    obtain ⟨h1, h2⟩ := fold_firstN (Spec.filterBounds (toSpecBound sb) (toSpecBound eb) (e :: es)) { n := n } (by simp; omega)
+    by_cases hlen : (Spec.filterBounds (toSpecBound sb) (toSpecBound eb) (e :: es)).length < n
+    · rw [h1 (by simpa using hlen)]
+      simp [List.take_of_length_le (Nat.le_of_lt hlen)]
+    · rw [h2 (by simp; omega)]
+      simp
+
+end BS.Impl
+
+namespace BS.Impl
+
+theorem sectionsFrom_length_le (p : Nat) (xs : List Entry) : ∀ full off,
+    (Spec.sectionsFrom p full off xs).length ≤ xs.length := by
+  induction xs with
+  | nil => intro full off; cases full <;> simp [Spec.sectionsFrom]
+  | cons x xs ih =>
+    intro full off
+    match full with
+    | none => simp only [Spec.sectionsFrom, List.length_cons]; have := ih (some x.ts) (off + Spec.secSize p + Spec.lineSize p); omega
+    | some f =>
+      simp only [Spec.sectionsFrom]
+      split
+      · simp only [List.length_cons]; have := ih (some f) (off + Spec.lineSize p); omega
+      · simp only [List.length_cons]; have := ih (some x.ts) (off + Spec.secSize p + Spec.lineSize p); omega
+
+/-- the byte length of a sought range: the lines of the selected entries plus the
+sections they open (counted from the full timestamp `F` in effect at the start) -/
+theorem pos_bytes (p : Nat) (xs : List Entry) (hv : Valid p xs) (want : List Entry) (ps : Pos)
+    (hlines : ∃ i j e, i < j ∧ j ≤ xs.length ∧ want = (xs.drop i).take (j - i) ∧ ps.stop = offA p xs j ∧
+      ((ps.start = offA p xs i) ∨ (Opens xs i e ∧ ps.start = offA p xs i + metaSize p))) :
+    ∃ F, ps.stop - ps.start = lineSize p * want.length + metaSize p * (Spec.sectionsFrom p F 0 want).length := by
+  obtain ⟨i, j, e, hij, hj, hw, hstop, hstart⟩ := hlines
+  have hsub : want.Sublist xs := by rw [hw]; exact (List.take_sublist _ _).trans (List.drop_sublist _ _)
+  have hpl : ∀ x ∈ want, x.pl.length = p := fun x hx => (hv.2 x (hsub.subset hx)).2
+  rcases hstart with h | ⟨hopen, h⟩
+  · refine ⟨fullAt xs i, ?_⟩
+    have hreg := congrArg List.length (region_between p xs i j (Nat.le_of_lt hij) hj)
+    rw [List.length_take, List.length_drop, ← hw, encFrom_length p want hpl (fullAt xs i) 0] at hreg
+    have := offA_le_length p xs j
+    have := offA_mono p xs i j (Nat.le_of_lt hij)
+    rw [hstop, h]; omega
+  · refine ⟨some e.ts, ?_⟩
+    obtain ⟨hbytes, hle⟩ := region_between_B p xs i j hij hj e hopen
+    have hreg := congrArg List.length hbytes
+    rw [List.length_take, List.length_drop, ← hw, encFrom_length p want hpl (some e.ts) 0] at hreg
+    have := offA_le_length p xs j
+    rw [hstop, h]; omega
+
+/-- **C14: the reported line count** is the number of lines a read returns plus
+`lines_per_metainfo` for each section opened by one of those lines (the header of the
+first line's own section is not counted when the read starts after it) -/
+theorem nLines_range (hdr ihdr : Bytes) (dir : Dir) (s : Sess) (e : Entry) (es : List Entry)
+    (hinv : SessInv hdr ihdr dir s (e :: es)) (sb eb : Bound) :
+    let want := Spec.filterBounds (toSpecBound sb) (toSpecBound eb) (e :: es)
+    (want = [] ∧ (apiNLines dir s sb eb = .ok 0 ∨ ∃ c, apiNLines dir s sb eb = .error (.err ("InvalidRange/" ++ c)))) ∨
+    (want ≠ [] ∧ ∃ m, m ≤ want.length ∧ apiNLines dir s sb eb = .ok (want.length + lpm s.d.p * m)) := by
+  intro want
+  have hspec := apiSeek_spec hdr ihdr dir s e es hinv sb eb
+  unfold apiNLines
+  generalize hseek : apiSeek (mainRegion dir s) s.d sb eb = r at hspec
+  cases hspec with
+  | rangeError c hw =>
+    left
+    refine ⟨hw, ?_⟩
+    split
+    · left; rfl
+    · rename_i f _ heq
+      right
+      simp only [Except.error.injEq] at heq
+      exact ⟨c, by rw [← heq]⟩
+    · rename_i heq; simp at heq
+    · rename_i heq; simp at heq
+  | nothing hw => left; exact ⟨hw, Or.inl rfl⟩
+  | pos ps hlt hread hlines =>
+    right
+    have hne : want ≠ [] := by
+      obtain ⟨i, j, _, hij, hj, hw, _, _⟩ := hlines
+      intro h
+      have hlen : (((e :: es).drop i).take (j - i)).length = 0 := by
+        rw [← hw]; show want.length = 0; rw [h]; rfl
+      rw [List.length_take, List.length_drop] at hlen
+      omega
+    refine ⟨hne, ?_⟩
+    obtain ⟨F, hbytes⟩ := pos_bytes s.d.p (e :: es) hinv.valid want ps hlines
+    refine ⟨(Spec.sectionsFrom s.d.p F 0 want).length, sectionsFrom_length_le _ _ _ _, ?_⟩
+    simp only [Pos.lines, hbytes, metaSize]
+    congr 1
+    have hls := lineSize_pos s.d.p
+    have : lineSize s.d.p * want.length + lpm s.d.p * lineSize s.d.p * (Spec.sectionsFrom s.d.p F 0 want).length
+        = lineSize s.d.p * (want.length + lpm s.d.p * (Spec.sectionsFrom s.d.p F 0 want).length) := by
+      rw [Nat.mul_add, Nat.mul_comm (lpm s.d.p) (lineSize s.d.p), Nat.mul_assoc]
+    rw [this, Nat.mul_div_cancel_left _ hls]
+
+end BS.Impl
+
+namespace BS.Impl
+
+/-- **C10: a resampling read without caches** returns the uniform bucket means of exactly the
+lines a full read of the range returns, for one bucket size `b ≥ 1`, and at most `2n` of them -/
+theorem readN_range_nocache (hdr ihdr : Bytes) (dir : Dir) (s : Sess) (e : Entry) (es : List Entry)
+    (hinv : SessInv hdr ihdr dir s (e :: es)) (n : Nat) (hn : 1 ≤ n) (sb eb : Bound)
+    (hsize : (Spec.encode s.d.p (e :: es)).length / lineSize s.d.p ≤ 2^32) :
+    let want := Spec.filterBounds (toSpecBound sb) (toSpecBound eb) (e :: es)
+    (∃ b, 1 ≤ b ∧ apiReadN dir s n sb eb = .ok (Spec.bucketMeans b (Spec.linMean s.d.p) want) ∧
+        (Spec.bucketMeans b (Spec.linMean s.d.p) want).length ≤ 2 * n) ∨
+    (want = [] ∧ ∃ c, apiReadN dir s n sb eb = .error (.err ("InvalidRange/" ++ c))) := by
+  intro want
+  have hregion : mainRegion dir s = Spec.encode s.d.p (e :: es) := by
+    unfold mainRegion Store.region
+    rw [hinv.data.data, hinv.data.hdrLen]; simp
+  have hspec := apiSeek_spec hdr ihdr dir s e es hinv sb eb
+  unfold apiReadN
+  have hn0 : ¬ n = 0 := by omega
+  simp only [hinv.nocache, List.mapM_nil, pure, Except.pure, bind, Except.bind, List.zip_nil_left, List.all_nil,
+    Bool.not_true, Bool.false_eq_true, if_false, hn0, selectLevel, selectLevel.go, if_true]
+  generalize hseek : apiSeek (mainRegion dir s) s.d sb eb = r at hspec
+  cases hspec with
+  | rangeError c hw => right; exact ⟨hw, c, rfl⟩
+  | nothing hw =>
+    left
+    refine ⟨1, Nat.le_refl _, ?_, ?_⟩
+    · show _ = Except.ok (Spec.bucketMeans 1 (Spec.linMean s.d.p) want)
+      have : want = [] := hw
+      rw [this, bucketMeans_short _ _ _ (by simp)]
+    · have : want = [] := hw
+      rw [this, bucketMeans_short _ _ _ (by simp)]; simp
+  | pos ps hlt hread hlines =>
+    left
+    simp only
+    obtain ⟨F, hbytes⟩ := pos_bytes s.d.p (e :: es) hinv.valid want ps hlines
+    have hls := lineSize_pos s.d.p
+    -- the seek's line count bounds the number of entries from above and the file size bounds it
+    have hlines_ge : want.length ≤ ps.lines s.d.p := by
+      unfold Pos.lines
+      rw [hbytes, Nat.le_div_iff_mul_le hls, Nat.mul_comm]
+      omega
+    have hlines_le : ps.lines s.d.p ≤ 2^32 := by
+      unfold Pos.lines
+      obtain ⟨i, j, _, _, hj, _, hstop, _⟩ := hlines
+      have := offA_le_length s.d.p (e :: es) j
+      have h1 : ps.stop - ps.start ≤ (Spec.encode s.d.p (e :: es)).length := by omega
+      exact Nat.le_trans (Nat.div_le_div_right h1) hsize
+    have hb1 : 1 ≤ max 1 (ps.lines s.d.p / n) := Nat.le_max_left _ _
+    have hb2 : max 1 (ps.lines s.d.p / n) ≤ 2^32 := by
+      apply Nat.max_le.mpr
+      exact ⟨by omega, Nat.le_trans (Nat.div_le_self _ _) hlines_le⟩
+    refine ⟨max 1 (ps.lines s.d.p / n), hb1, ?_, ?_⟩
+    · unfold dataReadResampling
+      have : ¬ max 1 (ps.lines s.d.p / n) = 0 := by omega
+      simp only [this, if_false]
+      rw [hregion, hread s.cb samplerProc _]
+      obtain ⟨s', h1, h2⟩ := fold_sampler_init s.d.p _ hb1 hb2
+        (Spec.filterBounds (toSpecBound sb) (toSpecBound eb) (e :: es))
+      rw [h1]
+      simp only
+      rw [h2]
+    · have hblen : (Spec.bucketMeans (max 1 (ps.lines s.d.p / n)) (Spec.linMean s.d.p) want).length
+          = want.length / max 1 (ps.lines s.d.p / n) := by
+        have : 0 < max 1 (ps.lines s.d.p / n) := hb1
+        clear hbytes hlines_ge hread hlines hseek
+        generalize max 1 (ps.lines s.d.p / n) = B at this ⊢
+        generalize want = w
+        fun_induction Spec.bucketMeans B (Spec.linMean s.d.p) w
+        next xs h =>
+          rcases h with h | h
+          · omega
+          · simp [Nat.div_eq_of_lt h]
+        next xs h b ih =>
+          have hlen : B ≤ xs.length := by omega
+          simp only [List.length_cons, ih, List.length_drop]
+          have hx : xs.length = (xs.length - B) + B := by omega
+          conv => rhs; rw [hx, Nat.add_div_right _ this]
+      rw [hblen]
+      -- at most 2n
+      by_cases h0 : ps.lines s.d.p / n = 0
+      · have hl : ps.lines s.d.p < 1 * n := (Nat.div_lt_iff_lt_mul (by omega)).mp (by omega)
+        simp [h0]; omega
+      · have hb : 1 ≤ ps.lines s.d.p / n := Nat.pos_of_ne_zero h0
+        have hmax : max 1 (ps.lines s.d.p / n) = ps.lines s.d.p / n := Nat.max_eq_right hb
+        rw [hmax]
+        have h1 : ps.lines s.d.p < (ps.lines s.d.p / n + 1) * n :=
+          (Nat.div_lt_iff_lt_mul (by omega)).mp (Nat.lt_succ_self _)
+        have h2 : (ps.lines s.d.p / n + 1) * n ≤ 2 * n * (ps.lines s.d.p / n) := by
+          have : ps.lines s.d.p / n + 1 ≤ 2 * (ps.lines s.d.p / n) := by
+            generalize ps.lines s.d.p / n = q at hb; omega
+          calc (ps.lines s.d.p / n + 1) * n ≤ (2 * (ps.lines s.d.p / n)) * n := Nat.mul_le_mul_right n this
+            _ = 2 * n * (ps.lines s.d.p / n) := by
+              rw [Nat.mul_assoc, Nat.mul_comm (ps.lines s.d.p / n) n, ← Nat.mul_assoc]
+        apply Nat.div_le_of_le_mul
+        rw [Nat.mul_comm]
+        omega
 
 end BS.Impl
